@@ -189,6 +189,8 @@ func Run(t testing.TB, prop, family string, n int, fn func(c *Case)) {
 					t.Errorf("case %s: unexpected panic in harness: %v", c.ID, r)
 				}
 			}()
+			armStuck(prop, c)
+			defer disarmStuck()
 			fn(c)
 		}()
 		ev := c.evals
